@@ -481,6 +481,8 @@ def _run(case, ctx, given_track):
             cls.append("after_requests_that_failed")
         elif track is None:
             track = _make_track(pts)
+            if (len(pts) + len(Q)) % 3 == 1:
+                track, _how = gen.derive(track, (case["X"], case["Y"]))
     snap = None
     if track is not None:
         snap = (list(track.getX()), list(track.getY()))
